@@ -259,6 +259,19 @@ Theorem GenTie_limbs_rev :
 Proof. exact (conj g_shift_right_small_eq (conj g_div_nx1_normalized_eq g_div_nx2_normalized_eq)). Qed.
 Print Assumptions GenTie_limbs_rev.
 
+(* div_nx1 / div_nx2 (algorithms/div/small.rs): downward index loop `for i in (1..len).rev()` reading
+   xs[i] and xs[i-1] through `get_unchecked`, writing xs[i] through `get_unchecked_mut`, element
+   references (`let first = unsafe { xs.get_unchecked_mut(0) }`), early `return` through the
+   normalised variant.  With this every function of small.rs and reciprocal.rs is regenerated from the
+   source on every run.  `lenZ limbs < B`: a slice length is a usize. *)
+Theorem GenTie_div_small :
+  (forall limbs d, Forall inW limbs -> inW d -> lenZ limbs < B ->
+     g_div_nx1 limbs d = omap (fun p => (snd p, fst p)) (DivSmall.div_nx1 limbs d)) /\
+  (forall limbs d, Forall inW limbs -> 0 <= d < BB -> lenZ limbs < B ->
+     g_div_nx2 limbs d = omap (fun p => (snd p, fst p)) (DivSmall.div_nx2 limbs d)).
+Proof. exact (conj g_div_nx1_eq g_div_nx2_eq). Qed.
+Print Assumptions GenTie_div_small.
+
 (* the premises are satisfiable and the generated code computes: reciprocal(2^63) = 2^64 - 1 *)
 Example GenTie_nonvacuous :
   g_reciprocal_mg10 (2 ^ 63) = Val (2 ^ 64 - 1) /\ g_mask 65 = Val 1 /\ g_nlimbs 65 = Val 2 /\
@@ -268,5 +281,7 @@ Example GenTie_nonvacuous :
   g_div_3x2_ref (2 ^ 127) 0 (2 ^ 127 + 2 ^ 64 - 1) = Val (2 ^ 64 - 2) /\
   g_submul_nx1 [0; 5] [3; 0] (2 ^ 64 - 1) = Val (0, [3; 2]) /\
   g_adc_n [2 ^ 64 - 1; 1] [1; 0] 0 = Val (0, [0; 2]) /\
-  g_div_nx1_normalized [5; 7] (2 ^ 63) = Val (5, [14; 0]).
+  g_div_nx1_normalized [5; 7] (2 ^ 63) = Val (5, [14; 0]) /\
+  g_div_nx1 [5; 7] 3 = Val (0, [6148914691236517207; 2]) /\
+  g_div_nx2 [5; 7; 1] (2 ^ 64 + 1) = Val (2 ^ 64, [5; 1; 0]).
 Proof. vm_compute. repeat split. Qed.
